@@ -21,7 +21,7 @@ pub fn meta() -> Meta {
             "orders on 5..10 variables are not enumerated".into(),
         ],
         hang_is_violation: true,
-        shard_timeout: (600, 3600),
+        shard_timeout: (120, 3600),
     }
 }
 
